@@ -713,13 +713,23 @@ def kind_of(x):
     return None
 
 
-def _seq_value(term, kind):
+def _seq_value(term, kind, ascii=False):
     """Concretise a constant sequence term if possible."""
     term = z3.simplify(term)
     vals = _const_seq(term)
     if vals is not None:
         return bytes(vals) if kind == "bytes" else "".join(map(chr, vals))
-    return SSeq(term, kind)
+    return SSeq(term, kind, ascii)
+
+
+def is_ascii(x):
+    if isinstance(x, SSeq):
+        return x.ascii
+    if isinstance(x, (bytes, bytearray)):
+        return all(b < 128 for b in x)
+    if isinstance(x, str):
+        return x.isascii()
+    return False
 
 
 def _const_seq(term):
@@ -785,11 +795,12 @@ def slice_bounds(sl, n):
 class SSeq(SV):
     """Immutable symbolic sequence of ints: bytes (0..255) or str (code points)."""
 
-    __slots__ = ("kind",)
+    __slots__ = ("kind", "ascii")
 
-    def __init__(self, term, kind="bytes"):
+    def __init__(self, term, kind="bytes", ascii=False):
         self.term = term
         self.kind = kind
+        self.ascii = ascii  # every element known to be < 128
 
     # construction helpers
     def _same(self, o):
@@ -803,14 +814,14 @@ class SSeq(SV):
             if kind_of(o) is None:
                 return NotImplemented
             raise TypeError("can't concat %s to %s" % (kind_of(o), self.kind))
-        return _seq_value(z3.Concat(self.term, seq_term(o)), self.kind)
+        return _seq_value(z3.Concat(self.term, seq_term(o)), self.kind, self.ascii and is_ascii(o))
 
     def __radd__(self, o):
         if not self._same(o):
             if kind_of(o) is None:
                 return NotImplemented
             raise TypeError("can't concat %s to %s" % (self.kind, kind_of(o)))
-        return _seq_value(z3.Concat(seq_term(o), self.term), self.kind)
+        return _seq_value(z3.Concat(seq_term(o), self.term), self.kind, self.ascii and is_ascii(o))
 
     def __mul__(self, o):
         raise Unsupported("sequence repetition")
@@ -841,7 +852,7 @@ class SSeq(SV):
         n = z3.Length(self.term)
         if isinstance(i, slice):
             lo, ln = slice_bounds(i, n)
-            return _seq_value(z3.SubSeq(self.term, lo, ln), self.kind)
+            return _seq_value(z3.SubSeq(self.term, lo, ln), self.kind, self.ascii)
         if not isinstance(i, (int, SInt)):
             raise TypeError("indices must be integers")
         t = num_term(i)
@@ -953,7 +964,7 @@ def ite(c, a, b):
     ct = as_bool_term(c)
     if isinstance(a, (SSeq, bytes, str)) and isinstance(b, (SSeq, bytes, str)):
         k = kind_of(a)
-        return _seq_value(z3.If(ct, seq_term(a), seq_term(b)), k)
+        return _seq_value(z3.If(ct, seq_term(a), seq_term(b)), k, is_ascii(a) and is_ascii(b))
     if isinstance(a, (SBool, bool)) and isinstance(b, (SBool, bool)):
         return mk_bool(z3.If(ct, as_bool_term(a), as_bool_term(b)))
     ta, tb = _coerce2(a, b)
